@@ -1,22 +1,22 @@
 package command
 
 var zzRegistry = map[string]func(int){
-	"ZZ_CmdSmoke": ZZ_CmdSmoke,
-	"ZZ_C02":      ZZ_C02,
-	"ZZ_C05Fresh": ZZ_C05Fresh,
-	"ZZ_C05":      ZZ_C05,
-	"ZZ_C06":      ZZ_C06,
-	"ZZ_C07":      ZZ_C07,
-	"ZZ_C08Cache": ZZ_C08Cache,
-	"ZZ_C09":      ZZ_C09,
-	"ZZ_C11":      ZZ_C11,
+	"ZZ_CmdSmoke":   ZZ_CmdSmoke,
+	"ZZ_C02":        ZZ_C02,
+	"ZZ_C05Fresh":   ZZ_C05Fresh,
+	"ZZ_C05":        ZZ_C05,
+	"ZZ_C06":        ZZ_C06,
+	"ZZ_C07":        ZZ_C07,
+	"ZZ_C08Cache":   ZZ_C08Cache,
+	"ZZ_C09":        ZZ_C09,
+	"ZZ_C11":        ZZ_C11,
 	"ZZ_C10Reverse": ZZ_C10Reverse,
-	"ZZ_C10":      ZZ_C10,
-	"ZZ_C10Race":  ZZ_C10Race,
-	"ZZ_C13":      ZZ_C13,
-	"ZZ_C14":      ZZ_C14,
-	"ZZ_C15Stage": ZZ_C15Stage,
-	"ZZ_C15":      ZZ_C15,
-	"ZZ_C16Conc": ZZ_C16Conc,
-	"ZZ_C16":      ZZ_C16,
+	"ZZ_C10":        ZZ_C10,
+	"ZZ_C10Race":    ZZ_C10Race,
+	"ZZ_C13":        ZZ_C13,
+	"ZZ_C14":        ZZ_C14,
+	"ZZ_C15Stage":   ZZ_C15Stage,
+	"ZZ_C15":        ZZ_C15,
+	"ZZ_C16Conc":    ZZ_C16Conc,
+	"ZZ_C16":        ZZ_C16,
 }
